@@ -3,13 +3,16 @@
 package main
 
 import (
+	"crypto"
 	"crypto/sha256"
 	"crypto/x509"
 	"encoding/hex"
+	"encoding/json"
 	"fmt"
 	"math/big"
 	"math/rand"
 	"os"
+	"os/exec"
 	"path/filepath"
 	"runtime/debug"
 	"sort"
@@ -29,6 +32,7 @@ import (
 	"verif/harness/lab/gen"
 	"verif/harness/lab/l2"
 	"verif/harness/lab/origin"
+	"verif/harness/lab/pki"
 	"verif/harness/lab/report"
 	"verif/harness/lab/sut"
 	"verif/harness/lab/world"
@@ -183,10 +187,68 @@ func ldbFiles(dir string) []string {
 	return out
 }
 
+// ---- F5 child: lookups on a prepared disk image while strace injects EIO into pread64
+
+type f5Cfg struct {
+	Dir     string
+	URL     string
+	Listed  []string
+	Unl     string
+}
+
+func childF5(cfgPath string) {
+	var cfg f5Cfg
+	b, _ := os.ReadFile(cfgPath)
+	_ = json.Unmarshal(b, &cfg)
+	sut.QuietStderr(filepath.Join(cfg.Dir, "f5.stderr.log"))
+	out := map[string]string{}
+	defer func() {
+		if r := recover(); r != nil {
+			out["panic"] = fmt.Sprint(r)
+		}
+		ob, _ := json.Marshal(out)
+		_ = os.WriteFile(filepath.Join(cfg.Dir, "f5.json"), ob, 0644)
+	}()
+	rootDER, _ := os.ReadFile(filepath.Join(cfg.Dir, "root.der"))
+	intDER, _ := os.ReadFile(filepath.Join(cfg.Dir, "int.der"))
+	keyDER, _ := os.ReadFile(filepath.Join(cfg.Dir, "int.key"))
+	root, _ := x509.ParseCertificate(rootDER)
+	in, _ := x509.ParseCertificate(intDER)
+	anyKey, _ := x509.ParsePKCS8PrivateKey(keyDER)
+	ca := &pki.CA{Cert: in, Key: anyKey.(crypto.Signer)}
+	chk, err := l2.Start(l2.Opts{WorkDir: filepath.Join(cfg.Dir, "wd"), Storage: "disk", SigMode: "verify", Fetch: "actively", Strict: true})
+	if err != nil {
+		out["provision_err"] = err.Error()
+		return
+	}
+	ask := func(name, serial string) {
+		sn, _ := new(big.Int).SetString(serial, 10)
+		leaf := ca.Leaf(sn, []string{cfg.URL}, nil)
+		st, err := chk.C.IsRevoked(leaf, [][]*x509.Certificate{{leaf, in, root}})
+		switch {
+		case err != nil:
+			out[name] = "error"
+		case st.Revoked:
+			out[name] = "revoked"
+		default:
+			out[name] = "not-revoked"
+		}
+	}
+	for i, l := range cfg.Listed {
+		ask(fmt.Sprintf("listed%d", i), l)
+	}
+	ask("unlisted", cfg.Unl)
+	chk.Stop()
+}
+
 func main() {
+	if len(os.Args) >= 3 && os.Args[1] == "child-f5" {
+		childF5(os.Args[2])
+		return
+	}
 	run := report.New("C09", "fault_enumeration")
-	run.Rule("faults applied to the real store while the checker holds it: F1 database handle closed under the repository; F2 byte flips / truncation of every table file and the MANIFEST at seeded offsets, then restart; F3 a listed record's value overwritten (garbage / empty / truncated) through a second handle while the checker is down; F4 Cleanup overlapping in-flight lookups (both backends); F6 a swap that fails half way (target made non-renamable between 'old moved aside' and 'new moved in'), then lookups of a configured CRL; for listed and unlisted certificates at Repository.IsRevoked and CRLRevocationChecker.IsRevoked; oracle: under an active fault (Revoked=false, err=nil) for a listed certificate is a violation; for an unlisted one only when the fault provably hit the read; non-trivial = fault case in which the fault surfaced as an error or verifiably missed the read; distinct = fault case descriptor")
-	run.Assume("strict CDP mode for on-disk corruption cases, so that a store that cannot even be opened is denied by the strict gate rather than silently unknown", "F5 (EIO injected by strace) is part of the thorough tier only")
+	run.Rule("faults applied to the real store while the checker holds it: F1 database handle closed under the repository; F2 byte flips / truncation of every table file and the MANIFEST at seeded offsets, then restart; F3 a listed record's value overwritten (garbage / empty / truncated) through a second handle while the checker is down; F4 Cleanup overlapping in-flight lookups (both backends); F5 EIO injected by strace into every pread64 from the N-th on in a child doing lookups on a prepared disk image; F6 a swap that fails half way (target made non-renamable between 'old moved aside' and 'new moved in'), then lookups of a configured CRL; for listed and unlisted certificates at Repository.IsRevoked and CRLRevocationChecker.IsRevoked; oracle: under an active fault (Revoked=false, err=nil) for a listed certificate is a violation; for an unlisted one only when the fault provably hit the read; non-trivial = fault case in which the fault surfaced as an error or verifiably missed the read; distinct = fault case descriptor")
+	run.Assume("strict CDP mode for on-disk corruption cases, so that a store that cannot even be opened is denied by the strict gate rather than silently unknown", "F5: strace injects EIO into pread64 (goleveldb table reads) of a child process from the N-th call on, N per thread")
 	scratch, _ := report.Scratch("C09")
 	sut.QuietStderr(filepath.Join(scratch, "stderr.log"))
 	si, sn, isShard := report.Shard()
@@ -334,6 +396,68 @@ func main() {
 			defer l.chk.Stop()
 			s.judge("F2-table-corruption."+kind, "disk", l, false, desc)
 		}})
+	}
+	// F5: read errors injected by strace into every pread64 from the N-th on
+	norace := os.Getenv("VERIF_ENGINE_BIN_NORACE")
+	if _, err := exec.LookPath("strace"); err == nil && norace != "" {
+		for _, when := range []int{3, 4, 6, 9, 14, 20} {
+			when := when
+			jobs = append(jobs, job{fmt.Sprintf("F5 when=%d", when), func(s *scn) {
+				l, err := s.load("disk", 400, true, false)
+				if err != nil {
+					s.run.Inconclusive("F5 setup: " + err.Error())
+					return
+				}
+				_ = l.chk.Restart()
+				_, _ = l.chk.Ask(s.w.Leaf(l.unl, l.cdp, nil))
+				l.chk.Stop()
+				dir := filepath.Dir(l.wd)
+				cdir := filepath.Join(dir, fmt.Sprintf("f5-%d", s.n))
+				_ = os.MkdirAll(cdir, 0755)
+				_ = os.Rename(l.wd, filepath.Join(cdir, "wd"))
+				_ = os.WriteFile(filepath.Join(cdir, "root.der"), s.w.Root.Cert.Raw, 0644)
+				_ = os.WriteFile(filepath.Join(cdir, "int.der"), s.w.Int.Cert.Raw, 0644)
+				kb, _ := x509.MarshalPKCS8PrivateKey(s.w.Int.Key)
+				_ = os.WriteFile(filepath.Join(cdir, "int.key"), kb, 0600)
+				cfg := f5Cfg{Dir: cdir, URL: l.url, Unl: l.unl.String()}
+				for _, x := range l.listed {
+					cfg.Listed = append(cfg.Listed, x.String())
+				}
+				cb, _ := json.Marshal(cfg)
+				cp := filepath.Join(cdir, "cfg.json")
+				_ = os.WriteFile(cp, cb, 0644)
+				s.w.CRL.Set(l.path, origin.Status(500, []byte("down")))
+				cmd := exec.Command("strace", "-f", "-o", filepath.Join(cdir, "strace.txt"), "-e", "trace=pread64", "-e", fmt.Sprintf("inject=pread64:error=EIO:when=%d+", when), norace, "child-f5", cp)
+				cmd.Stdout, cmd.Stderr = nil, nil
+				_ = cmd.Run()
+				ob, err := os.ReadFile(filepath.Join(cdir, "f5.json"))
+				desc := fmt.Sprintf("F5 EIO injected into every pread64 from the %d-th on (per thread), 400 entries on disk", when)
+				if err != nil {
+					s.run.Inconclusive(desc + ": child produced no result")
+					return
+				}
+				var res map[string]string
+				_ = json.Unmarshal(ob, &res)
+				st, _ := os.ReadFile(filepath.Join(cdir, "strace.txt"))
+				injected := strings.Count(string(st), "(INJECTED)")
+				s.run.Count("F5_injected_read_errors", int64(injected))
+				s.run.Eval(len(res))
+				if res["panic"] != "" {
+					s.run.Violation("F5-eio.disk.panic", desc+": "+res["panic"], &report.Replay{Case: res})
+					return
+				}
+				bad := false
+				for k, v := range res {
+					if strings.HasPrefix(k, "listed") && v == "not-revoked" {
+						bad = true
+						s.run.Violation("F5-eio.disk.listed-answered-not-revoked", fmt.Sprintf("%s: %s answered not revoked; all answers %v; %d reads failed", desc, k, res, injected), &report.Replay{Case: res})
+					}
+				}
+				if !bad && injected > 0 {
+					s.run.NonTrivial(desc)
+				}
+			}})
+		}
 	}
 	// F4: Cleanup overlapping in-flight lookups
 	for _, backend := range []string{"memory", "disk"} {
